@@ -9,6 +9,7 @@ from vlib.model import ical_text as M
 
 from checks.c01_parse_roundtrip import fixtures, _retext
 
+import icalendar
 from icalendar import Calendar
 
 ID = "C09"
@@ -135,6 +136,33 @@ def variant(case):
                 new.append(M.fold_line(ln, cs, " \t") if cs and len(ln) > 1 else ln)
             lines = new
         text = "\r\n".join(lines) + "\r\n"
+    if "aim" in rw:
+        # folds of the long X-PAD line placed so that CR, LF or the white space falls on an absolute character offset k*target+delta
+        aim = rw["aim"]
+        eol = "\n" if "lf" in rw else "\r\n"
+        lines = split_lines(text) if lines is None else lines
+        if "refold" in rw:       # the lines are physical already; keep them, only the pad line is re-cut
+            lines = text.split("\r\n")[:-1]
+        out, pos = [], 0
+        for ln in lines:
+            if ln.startswith(("X-PAD:", "x-pad:", "X-Pad:", "x-PAD:")) and "\r" not in ln:
+                cs, k = [], 1
+                while True:
+                    i = k * aim["target"] + aim["delta"] - pos - len(cs) * (len(eol) + 1)
+                    if i >= len(ln):
+                        break
+                    if i >= 1:
+                        cs.append(i)
+                    k += 1
+                pieces, last = [], 0
+                for i in cs:
+                    pieces.append(ln[last:i])
+                    last = i
+                pieces.append(ln[last:])
+                ln = ("\r\n" + aim["ws"]).join(pieces)
+            out.append(ln)
+            pos += len(ln.replace("\r\n", eol)) + len(eol)
+        text = "\r\n".join(out) + "\r\n"
     if "lf" in rw:
         text = text.replace("\r\n", "\n")
     if "blank" in rw:
@@ -147,9 +175,21 @@ def variant(case):
     return data
 
 
+class MyCalendar(Calendar):
+    """a user subclass as entry point: from_ical is inherited and must not care how the text spells things"""
+
+
+class MyEvent(icalendar.Event):
+    pass
+
+
+ENTRIES = {"Calendar": Calendar, "subclass": MyCalendar, "Component": icalendar.cal.Component, "event-subclass": MyEvent}
+
+
 def judge(case):
     fails = []
     base = base_text(case)
+    Calendar = ENTRIES[case.get("entry", "Calendar")]     # noqa: N806 - the entry point of this case
     if re.search(rb"\r(?!\n)", base):
         return []      # a bare CR is data, not a line ending: such a base (one fixture uses CR CR LF) is outside 'LF instead of CRLF'
     var = variant(case)
@@ -171,6 +211,10 @@ def judge(case):
                                  f"rewrites={sorted(case['rewrites'])} provider={provider}: {e!r} variant={var[:300]!r}"[:600]))
             continue
         ev = [T.extract(c) for c in v]
+        tb, tv = [type(x).__qualname__ for c in b for x in c.walk()], [type(x).__qualname__ for c in v for x in c.walk()]
+        if tb != tv:
+            fails.append(Failure("C09.invariant", "node-classes-differ", f"entry={case.get('entry')} rewrites={sorted(case['rewrites'])} provider={provider}: {tb[:4]} vs {tv[:4]}"))
+            continue
         if ev != eb:
             fails.append(Failure("C09.invariant", "tree-differs", f"rewrites={sorted(case['rewrites'])} provider={provider}: {_diff(eb, ev)} variant={var[:200]!r}"[:700]))
             continue
@@ -191,7 +235,9 @@ def _diff(e1, e2):
 
 def info(case):
     rw = case["rewrites"]
-    classes = ["base:" + case["base"]] + ["rw:" + k for k in rw]
+    classes = ["base:" + case["base"], "entry:" + case.get("entry", "Calendar")] + ["rw:" + k for k in rw]
+    if "aim" in rw:
+        classes.append(f"aimed-fold-at-k*{rw['aim']['target']}")
     base = base_text(case)
     up = base.upper()
     special = b"TZID=" in up or b"FREEBUSY" in up or b"RDATE" in up or b"EXDATE" in up
@@ -271,11 +317,19 @@ def tree_bases(draw):
     tzs = [VTZ[zone_id]]
     subs = tzs + comps if draw(st.booleans()) else comps + tzs
     tree = {"c": "VCALENDAR", "p": [["VERSION", {"k": "text", "v": "2.0"}], ["PRODID", {"k": "text", "v": "-//verif//c09"}]], "s": subs}
-    return {"base": "tree", "tree": tree, "rewrites": draw(rewrites())}
+    rw = draw(rewrites())
+    if draw(st.integers(0, 3)) == 0:
+        target = draw(st.sampled_from([1 << 10, 1 << 12, 1 << 13, 1 << 14, 1 << 15, 1 << 16, 1 << 16, 1 << 17, 10000, 100000]))
+        rw["aim"] = {"target": target, "delta": draw(st.integers(-4, 3)), "ws": draw(st.sampled_from(" \t"))}
+        n = target * draw(st.sampled_from([1, 1, 2, 3])) + 300
+        tree["p"].append(["X-PAD", {"k": "text", "v": draw(st.sampled_from(["p", "pad ", "\u00e4"])) * n}])
+        tree["p"][-1][1]["v"] = tree["p"][-1][1]["v"][:n]
+    return {"base": "tree", "tree": tree, "rewrites": rw, "entry": draw(st.sampled_from(["Calendar", "Calendar", "subclass", "Component", "event-subclass"]))}
 
 
 def fixture_bases():
-    return st.builds(lambda f, rw: {"base": "fixture", "fixture": f, "rewrites": rw}, st.sampled_from(sorted(fixtures())), rewrites())
+    return st.builds(lambda f, rw, e: {"base": "fixture", "fixture": f, "rewrites": rw, "entry": e}, st.sampled_from(sorted(fixtures())), rewrites(),
+                     st.sampled_from(["Calendar", "Calendar", "subclass", "Component", "event-subclass"]))
 
 
 def streams(tier):
